@@ -1094,6 +1094,21 @@ func c16r2(c *Ctx) {
 	}
 }
 
+// c16FuncsX: fn and the extracted helpers it calls (transitively, see callsInX).
+func (p *Program) c16FuncsX(fn *ssa.Function) []*ssa.Function {
+	out := []*ssa.Function{fn}
+	seen := map[*ssa.Function]bool{fn: true}
+	for _, xc := range p.callsInX(fn) {
+		for _, ch := range xc.Chain {
+			if h := staticCallee(ch.Common); h != nil && !seen[h] {
+				seen[h] = true
+				out = append(out, h)
+			}
+		}
+	}
+	return out
+}
+
 func (p *Program) c16DescribeInstr(in ssa.Instruction) string {
 	if ci, ok := in.(ssa.CallInstruction); ok {
 		cc := ci.Common()
@@ -1125,9 +1140,13 @@ func c16r3(c *Ctx) {
 		for _, pull := range c16PullCalls(fn) {
 			// (a) Unpacked=False under the pull error
 			var shown []ssa.Instruction
-			for _, cs := range conditionSets(fn) {
-				if cs.Type == unpacked && cs.Status == "False" && p.errOfCall(p.FactsAt(cs.Call.Instr.Block()), pull) == noTri {
-					shown = append(shown, cs.Call.Instr)
+			// (inlined view: the error handling may live in an extracted helper, whose blocks carry the
+			// facts of its call sites)
+			for _, g := range p.c16FuncsX(fn) {
+				for _, cs := range conditionSets(g) {
+					if cs.Type == unpacked && cs.Status == "False" && p.errOfCall(p.FactsAtX(cs.Call.Instr.Block()), pull) == noTri {
+						shown = append(shown, cs.Call.Instr)
+					}
 				}
 			}
 			oa := c.Ob(fn, "pull-error:Unpacked=False", pull, "a pull error is reported as Unpacked=False")
@@ -1151,7 +1170,7 @@ func c16r3(c *Ctx) {
 						problems = append(problems, fmt.Sprintf("return at %s under the pull error returns error %s: the controller skips the status update", p.IPos(rc.Ret), p.describe(rc.Results[errIdx])))
 					}
 				}
-				if !p.mustPrecede(rc.Ret, func(in ssa.Instruction) bool {
+				if !p.mustPrecedeX(rc.Ret, func(in ssa.Instruction) bool {
 					for _, s := range shown {
 						if s == in {
 							return true
@@ -1248,7 +1267,8 @@ func c16r4(c *Ctx) {
 		}
 		// SetUnpackedHash
 		nset := 0
-		for _, cl := range callsIn(fn) {
+		for _, xcl := range p.callsInX(fn) {
+			cl := xcl.Call
 			if calleeName(cl.Common) != "SetUnpackedHash" || len(callArgs(cl.Common)) != 1 {
 				continue
 			}
@@ -1266,7 +1286,7 @@ func c16r4(c *Ctx) {
 				pr = append(pr, "no guarded spec hash to compare with")
 			}
 			okDeploy := false
-			fs := p.FactsAt(cl.Instr.Block())
+			fs := p.FactsAtX(cl.Instr.Block())
 			for _, dc := range dcs {
 				if p.errOfCallIsNil(fs, dc) {
 					okDeploy = true
@@ -1288,7 +1308,8 @@ func c16r4(c *Ctx) {
 		if len(hashes) > 0 {
 			o := c.Ob(fn, "spec-hash:derivation", nil, "the spec hash is pkg.GetSpecHash(modifier), optionally extended by a suffix")
 			var pr []string
-			for _, v := range p.possibleValues(hashes[0]) {
+			// (the computation may live in an extracted helper: look through its results)
+			for _, v := range p.possibleValuesX(hashes[0]) {
 				if !c16IsSpecHash(v) {
 					if b, ok := v.(*ssa.BinOp); ok && b.Op == token.ADD && (c16IsSpecHash(b.X) || c16IsSpecHash(b.Y)) {
 						continue
